@@ -145,8 +145,13 @@ def run_t1(modules: list[str], keys: list[str] | None, prop: str, ctx, timeout_m
             # stale contract / construct left the subset: the deductive layer cannot speak for this function
             res.functions_not_under_contract.append({"function": key, "reason": "deductive layer not re-established: " + o["error"]})
             res.obligations.append(Obligation(f"{key}#generate", key, "VC generation for this function", UNDECIDED, reason=o["error"]))
-            if key in baseline:
-                res.violations.append(Violation(signature=f"{prop}:T1:{key}:not-re-established", what=f"{key}: contract was fully discharged on the baseline tree but VCs can no longer be generated ({o['error']}); verdict rests on the bounded stand-in", obligation=f"{key}#generate", failing_input_found=False, tier="T1", solver_output=o["error"]))
+            # not an alarm (a harmless refactoring may leave the subset): the verdict for this contract rests on its
+            # native monitor (below) and on the property's bounded stand-ins, which always run
+            if o["cross"] is not None:
+                cr = o["cross"]
+                res.standins.append(StandIn(contract=f"native monitor of {key}", tier="T3", bound=f"{cr['evaluations']} seeded random inputs satisfying requires", evaluations=cr["evaluations"], distinct_nontrivial=cr["distinct"], samples=cr["samples"], notes="stand-in while the deductive layer is not re-established"))
+                for f in cr["fails"]:
+                    res.violations.append(Violation(signature=f"{prop}:T3:{key}:native-monitor", what=f"native contract monitor of {key} failed: {f['observed']}", input={"contract": key, "input_repr": f["input_repr"], "seed": ctx.seed, "n": cr["evaluations"]}, contract="native monitor", observed=f["observed"], tier="T3"))
             continue
         res.functions_under_contract.append(o["info"])
         obs = o["obligations"]
